@@ -297,6 +297,11 @@ def main():
     seed = int(os.environ.get("VERIF_SEED", "1") or 1)
     t0 = time.time()
     prop = args.prop
+    try:
+        import worldgen as _W
+        _W.prune_cfgdir()
+    except Exception:
+        pass
     mod = importlib.import_module(f"props.{prop}")
     rng = random.Random((seed << 8) ^ int(prop[1:]))
     problems = []       # (kind, detail, replay_payload, failing_input_found)
